@@ -110,6 +110,44 @@ def main():
     txt("crc16_catalogue", m.group(1) if m else None)
     m = re.search(r"CASTAGNOLI: Crc<u32> = Crc::<u32>::new\(&(\w+)\)", crc)
     txt("crc32_catalogue", m.group(1) if m else None)
+    # ---- the crc / crc-catalog crates named by /repo/Cargo.lock (vendored sources in the cargo registry)
+    import glob
+    lock = ""
+    try:
+        lock = open(os.path.join(REPO, "Cargo.lock")).read()
+    except OSError:
+        pass
+    def dep_src(crate, rel):
+        m = re.search(r'name = "' + re.escape(crate) + r'"\nversion = "([^"]+)"', lock)
+        if not m:
+            return None, ""
+        for d in glob.glob(os.path.expanduser("~/.cargo/registry/src/*/" + crate + "-" + m.group(1))):
+            try:
+                return m.group(1), open(os.path.join(d, rel)).read()
+            except OSError:
+                pass
+        return m.group(1), ""
+    ver, crclib = dep_src("crc", "src/lib.rs")
+    m = re.search(r"type DefaultImpl = ([^;]+);", crclib)
+    txt("crc_crate_default_impl", m.group(1).strip() if m else None)
+    _, crc16rs = dep_src("crc", "src/crc16.rs")
+    _, crc32rs = dep_src("crc", "src/crc32.rs")
+    _, utilrs = dep_src("crc", "src/util.rs")
+    _, tablers = dep_src("crc", "src/table.rs")
+    def squash(t):
+        return re.sub(r"\s+", "", t)
+    for nm, t, ty in [("crc16", crc16rs, "u16"), ("crc32", crc32rs, "u32")]:
+        m = re.search(r"if reflect \{\s*while i < len \{(.*?)i \+= 1;", t, flags=re.S)
+        txt(nm + "_crate_update_reflect", squash(m.group(1)) if m else None)
+        ub = fn_body(utilrs, nm, prefix=r"pub\(crate\) const ")
+        m = re.search(r"if reflect \{(.*?)\} else", ub or "", flags=re.S)
+        txt(nm + "_crate_util_reflect", squash(m.group(1)) if m else None)
+        m = re.search(r"table\[0\]\[i\] = (" + nm + r"\(poly, reflect, i as " + ty + r"\));", tablers)
+        txt(nm + "_crate_table_lane0", m.group(1).replace(" ", "") if m else None)
+    _, cat = dep_src("crc-catalog", "src/algorithm.rs")
+    for nm in ["CRC_16_IBM_SDLC", "CRC_32_ISCSI"]:
+        m = re.search(r"pub const " + nm + r": Algorithm<u\d+> = Algorithm \{(.*?)\};", cat, flags=re.S)
+        txt(nm.lower() + "_params", squash(m.group(1)) if m else None)
     nat("eid_scheme_dtn", eid, r"const ENDPOINT_URI_SCHEME_DTN: u8 = (\d+);")
     nat("eid_scheme_ipn", eid, r"const ENDPOINT_URI_SCHEME_IPN: u8 = (\d+);")
     for nm in ["BUNDLE_STATUS_REQUEST_DELETION", "BUNDLE_STATUS_REQUEST_DELIVERY", "BUNDLE_STATUS_REQUEST_FORWARD",
